@@ -227,7 +227,8 @@ def run(run, tier, replay):
                                                  "final_tick_ms", "per_driver", "discarded_runtimes", "wall_s")}
         run.note("replay", stats)
         run.note("drift_steps", total_drift)
-        run.note("exhaustive", "Gen_Timer.cfg exhaustive; Gen_Timer_full.cfg sampled")
+        run.note("exhaustive", False)
+        run.note("exhaustive_scope", "Gen_Timer.cfg exhaustive; Gen_Timer_full.cfg sampled")
         # ---- end-to-end programs on both drivers ----
         rc, out, err = vlib.run_bin("e2e_timer", [6 if quick else 150, vlib.seed()], timeout=2400)
         s, d = _summary("e2e_timer", out, err)
